@@ -156,6 +156,10 @@ ALLOWED_AXIOMS = {
     "functional_extensionality_dep", "classic", "sig_forall_dec", "sig_not_dec",
 }
 
+# Coq's primitive machine integers / floats (used by Interval); listed by Print Assumptions, not ours
+PRIMITIVE_PREFIXES = ("FloatAxioms.", "Uint63Axioms.", "Uint63.", "PrimInt63.", "PrimFloat.", "Sint63.", "FloatOps.",
+                      "SpecFloat.", "CarryType.", "PrimString.")
+
 FORBIDDEN = re.compile(
     r"\b(Admitted|admit|Axiom|Axioms|Parameter|Parameters|Conjecture|Conjectures|"
     r"Admit Obligations|bypass_check|Unset Guard Checking|Unset Positivity Checking|"
